@@ -27,6 +27,9 @@ class PersistentWorker(Worker):
         if _results_pipe is None:
             raise ValueError('_results_pipe should not be None')
         self._results_pipe = _results_pipe
+        # also set by _init_child; needed by _cleanup if the child is interrupted before it gets there
+        self._counter = 0
+        self._stop = False
         super().__init__(target, **kwargs)
         self._closed = False
 
